@@ -67,6 +67,10 @@ def cases(draw):
     for t in tasks:
         if t['pilot'] is not None and t.get('named') and draw(st.integers(0, 2)) == 0:
             t['raptor'] = True
+        elif t['pilot'] is not None and t.get('named') and n_p >= 2 and draw(st.integers(0, 3)) == 0:
+            # a raptor master handed to its pilot through Pilot.submit_raptors, from a description
+            # which was used before and still names another pilot
+            t['master'] = True
     for t in tasks:
         # tasks which were placed carry their slots in the record the client receives: in the
         # agent scheduler's format, or - for a task a raptor worker ran - the worker's short form
@@ -138,8 +142,27 @@ def run_case(case):
                 # a task addressed to a raptor master running on that pilot
                 d['raptor_id'] = 'raptor.0000'
                 res.label('bound_task_addressed_to_raptor_master')
-        tds.append(rp.TaskDescription(d))
-    tasks = tm.submit_tasks(tds) if tds else []
+        if t['pilot'] is not None and t['named'] and t.get('master') and n_p >= 2:
+            d['mode']  = rp.RAPTOR_MASTER
+            d['pilot'] = pilots[(t['pilot'] + 1) % n_p].uid      # left over from an earlier use
+            d['_via_pilot'] = t['pilot'] % n_p
+        tds.append(d)
+    tasks = [None] * len(tds)
+    try:
+        plain = [(i, d) for i, d in enumerate(tds) if '_via_pilot' not in d]
+        if plain:
+            for (i, _), task in zip(plain, tm.submit_tasks([rp.TaskDescription(d) for _, d in plain])):
+                tasks[i] = task
+        for i, d in enumerate(tds):
+            if '_via_pilot' in d:
+                k = d.pop('_via_pilot')
+                got = pilots[k].submit_raptors(rp.TaskDescription(d))
+                tasks[i] = got[0] if isinstance(got, list) else got
+                res.label('raptor_master_submitted_through_its_pilot')
+    except Exception as e:                      # noqa
+        from .runner import exc_sig
+        res.fail(exc_sig('setup:submit_raised', e), repr(e))
+        return res
     seen_setup = []
     for t, task in zip(case['tasks'], tasks):
         upd = {'uid': task.uid, 'type': 'task', 'state': t['state']}
